@@ -117,6 +117,10 @@ class HeapMixin:
             if attr == "__name__":
                 return VStr(ci.name)
             raise E.Unsupported(f"class attr {ci.name}.{attr}")
+        if isinstance(v, VExcClass):
+            if attr in ("__name__", "__qualname__"):
+                return VStr(v.name)
+            raise E.Unsupported(f"exception class attribute {attr}")
         if isinstance(v, VModule):
             return self.module_attr(v, attr)
         if isinstance(v, VExc):
